@@ -555,7 +555,10 @@ class PWLCalibration(keras.layers.Layer):
         value=self.input_keypoints,
         dtype=self.dtype,
         shape=[len(self.input_keypoints), 1])
-    outputs = self.call(test_inputs)
+    if self.impute_missing and self.missing_input_value is None:
+      outputs = self.call([test_inputs, tf.zeros_like(test_inputs)])
+    else:
+      outputs = self.call(test_inputs)
 
     asserts = pwl_calibration_lib.assert_constraints(
         outputs=outputs,
